@@ -93,6 +93,8 @@ func runC12(c *Ctx) {
 			scen = [][3]interface{}{{"C", 0, 1}, {"C", 1, 2}, {"C", 2, 4}, {"D", 1, 0}, {"C", 3, 16}}
 		case 3: // a local service whose streaming half conflicts: nothing of its unary half may stay
 			scen = [][3]interface{}{{"S", 0, 0}, {"S", 5, 0}, {"C", 0, 2}, {"S", 5, 0}, {"D", 0, 0}}
+		case 4: // dropping what is not registered (never, already dropped) changes nothing — later calls still work
+			scen = [][3]interface{}{{"D", 2, 0}, {"C", 0, 1}, {"D", 0, 0}, {"D", 0, 0}, {"C", 1, 2}, {"D", 8, 0}, {"S", 0, 0}}
 		case 2: // changed re-registration that fails (drop-and-recreate, then duplicate rule)
 			scen = [][3]interface{}{{"S", 0, 0}, {"C", 0, 2}, {"C", 1, 2}, {"C", 0, 6}, {"D", 1, 0}}
 		}
@@ -118,6 +120,9 @@ func runC12(c *Ctx) {
 					}
 					r.doOp("D", b, 0)
 				}
+			}
+			if r.stuck {
+				break
 			}
 			after := mux.VerifSnapshot()
 			res := strings.SplitN(r.impl[len(r.impl)-1], "#", 2)[0]
